@@ -189,9 +189,30 @@ def run_point(ctx, kind, n, acts, fmt, kw, batch, order, model_reqs):
     if batch is None:
         en = Enc15(lrn.offered); model_reqs.append((dict(case), en, got[0], [[en.enc(a) for a in lrn.offered], en.enc(lrn.last_pred), seed]))
 
+def inplace_law(ctx):
+    """the caller keeps ONE list of actions and edits it in place between calls: the learner is shown, and answers from, the current set"""
+    from coba.safety import SafeLearner
+    class Seen:
+        def __init__(self): self.seen = []
+        def predict(self, context, actions): self.seen.append(list(actions)); return actions[-1], 1.0
+        def learn(self, *a, **k): pass
+    for first, then in (([0, 1, 2, 3, 4, 5], [0, 1]), ([0, 1], [0, 1, 2]), ([1, 5, 7], [5, 1]), ([2, 3, 4], [3]), (["a", 0], ["b", 0, 1])):
+        case = dict(what="one action list edited in place", first=first, then=then)
+        ctx.count("inplace", repr(case), True)
+        try:
+            lrn = Seen(); safe = SafeLearner(lrn, 1)
+            A = list(first); safe.predict(None, A)
+            A[:] = then
+            a, p, _ = safe.predict(None, A)
+        except Exception as e:
+            ctx.fail(["inplace", "raises", errname(e)], "raised %s: %s on %s" % (errname(e), str(e)[:100], case), case); continue
+        if lrn.seen[-1] != then or a != then[-1]:
+            ctx.fail(["inplace", "stale-actions"], "after the list was edited in place to %r the learner was shown %r and the evaluator received %r" % (then, lrn.seen[-1], a), case)
+
 def run(ctx):
     from coba.context import CobaContext, NullLogger
     CobaContext.logger = NullLogger()
+    inplace_law(ctx)
     sets = action_sets()
     pts = []
     for (kind, n), acts in sets.items():
